@@ -94,11 +94,11 @@ def gen_alt(r, k2=False):
         pred = r.choice(["[1]", "[@x]", "[b]", "[last()]", "[not(@y)]", "[.='t1']", "[2]"])
         return dict(a, text=t + pred, multi=True)
     if c < 0.75:
-        lead = r.choice(["a/", "b/", "*/", "d/", "//", "/", "a/b/", "p:a/", "*[@x]/", "key('ke','v')/"])
+        lead = r.choice(["a/", "b/", "*/", "d/", "c/", "/", "a/b/", "p:a/", "*[@x]/", "key('ke','v')/"])
         if lead == "/" and a["attr"]:
             lead = "*/"
         return dict(a, text=lead + t, multi=True)
-    lead = r.choice(["a/", "*/", "//"])
+    lead = r.choice(["a/", "*/", "b/"])     # no '//': the matcher's treatment of '//' is C09's subject (K14, K15, '//a' on the document element)
     pred = r.choice(["[1]", "[@x]", "[last()]"])
     return dict(a, text=lead + t + pred, multi=True)
 
@@ -609,8 +609,8 @@ K2_SHEET = {"items": [
 
 def corpus_cases(ctx):
     import copy
-    return [make_case(ctx, "k1", k1=True, sheet=copy.deepcopy(K1_SHEET), doc="<d><a/><a><b/></a></d>"),
-            make_case(ctx, "k2", k2=True, sheet=copy.deepcopy(K2_SHEET), doc="<d><a>t1</a><!--c--><?pi1 q?></d>")]
+    return [make_case(ctx, "corpusK1", k1=True, sheet=copy.deepcopy(K1_SHEET), doc="<d><a/><a><b/></a></d>"),
+            make_case(ctx, "corpusK2", k2=True, sheet=copy.deepcopy(K2_SHEET), doc="<d><a>t1</a><!--c--><?pi1 q?></d>")]
 
 
 def run(ctx):
